@@ -209,6 +209,11 @@ class QueryParser(object):
         if self.schema and fieldname in self.schema:
             field = self.schema[fieldname]
 
+            # A field that is only stored (or only has a column) has no terms
+            # to search: say so in-band instead of failing in the analyzer
+            if not field.indexed:
+                return query.error_query("Field %r is not indexed" % fieldname)
+
             # If this field type wants to parse queries itself, let it do so
             # and return early
             if field.self_parsing():
